@@ -1,4 +1,5 @@
 import Echse.Model.Daemon
+import Echse.Model.Conn
 import Echse.Model.Instant
 import Driver.Util
 open Echse.Daemon
@@ -74,6 +75,27 @@ def dStep (d : DSt) (op : List String) : DSt × String :=
     | some peer =>
       let (st, us) := httpSched d.s peer (if urluid == "-" then none else urluid.toNat?) (tuids.filter (· ≠ "-"))
       (d, if us.isEmpty then s!"{st}" else s!"{st}:" ++ joinWith "+" (sortStrs us))
+    | none => (d, "bad-op")
+  | "N" :: k :: frees => match k.toNat? with
+    | some k =>
+      -- k clients connect, the listed ones hang up, as many connect again (the pool is all free between operations)
+      let conn := fun (st : Nat × List (Option Nat) × List Nat × List String) =>
+        let (free, got, used, outs) := st
+        let (r, free') := Echse.Conn.makeConn free
+        match r with
+        | none => (free', got ++ [none], used, outs ++ ["-"])
+        | some i => (free', got ++ [some i], i :: used, outs ++ [toString i ++ (if used.contains i then "!" else "")])
+      let st := (List.range (min k 256)).foldl (fun st _ => conn st) (Echse.Conn.allFree, [], [], [])
+      let (st, nfree) := frees.foldl (fun (acc : (Nat × List (Option Nat) × List Nat × List String) × Nat) f =>
+        let ((free, got, used, outs), nf) := acc
+        match f.toNat? with
+        | some x => match got[x]? with
+          | some (some i) => if used.contains i
+              then ((Echse.Conn.freeConn free i, got.set x none, used.erase i, outs), nf + 1) else acc
+          | _ => acc
+        | none => acc) (st, 0)
+      let st := (List.range nfree).foldl (fun st _ => if st.2.1.length < 256 then conn st else st) st
+      (d, joinWith "," st.2.2.2)
     | none => (d, "bad-op")
   | ["Q"] => (d, showTable d.s)
   | ["L"] => (d, showFiles d.s)
